@@ -527,6 +527,7 @@ impl<'a> Interp<'a> {
                         Stmt::Expr(e, _) => {
                             self.eval(e, &env2)?;
                         }
+                        Stmt::Raw(_) => return Err(Stop::Unspecified("raw statement".into())),
                     }
                 }
                 match fin {
